@@ -152,8 +152,15 @@ def run(cx):
     cx.rule("R15f", "None dropped, kwargs -> equality filters, execute only in _execute, entry points reach _execute")
     cx.assume("field names, static condition strings, the SELECT text, group_by and _order_by are SQL text supplied by the programmer by design; only condition *values* are data")
 
+    # private helpers extracted from these functions are analysed in place
+    from sa.inline import inlined
+    fv_make, _i1 = inlined(repo.mod(REL), fv_make)
+    or_make, _i2 = inlined(repo.mod(REL), or_make)
+    execute, _i3 = inlined(repo.mod(REL), execute)
+    if _i1 or _i2 or _i3:
+        cx.note(f"private helpers inlined for the analysis: {sorted(set(_i1 + _i2 + _i3))}")
     # every implementation of make_text_update_values in the package
-    impls = [(m, q, f) for m, q, f in repo.functions() if f.name == "make_text_update_values"]
+    impls = [(m, q, {"SqlFieldValCondition": fv_make, "SqlOrCondition": or_make}.get(getattr(enclosing(f, (ast.ClassDef,)), "name", ""), f)) for m, q, f in repo.functions() if f.name == "make_text_update_values"]
     cx.at_least("R15a", "make_text_update_values implementations", len(impls), 3)
 
     # ------------------------------------------------------------------ R15d tables
@@ -319,10 +326,13 @@ def run(cx):
         if ok:
             g = a.generators[0]
             elt = a.elt
+            from sa.guards import alias_env, xnorm
+            env_ = alias_env(f)
+            same_list = len(elt.args) == 2 and xnorm(elt.args[0], env_) == xnorm(ast.Name(id=list_name, ctx=ast.Load()), env_) if isinstance(elt, ast.Call) else False
             ok = isinstance(elt, ast.Call) and call_name(elt) == "make_text_update_values" and isinstance(elt.func, ast.Attribute) and \
-                is_name(elt.func.value, g.target.id if isinstance(g.target, ast.Name) else "") and len(elt.args) == 2 and is_name(elt.args[0], list_name)
+                is_name(elt.func.value, g.target.id if isinstance(g.target, ast.Name) else "") and same_list
             it = g.iter
-            direct = (is_name(it, src_attr) or is_self_attr(it, src_attr))
+            direct = (is_name(it, src_attr) or is_self_attr(it, src_attr) or xnorm(it, env_) in (src_attr, f"self.{src_attr}"))
             cx.ob("R15c", j, ok and direct, f"fragments are produced and joined in the iteration order of {norm(it)}; each call binds into {list_name}" if ok and direct else
                   f"join argument is not `x.make_text_update_values({list_name}, ...) for x in <conditions>` over the condition list itself ({norm(a)[:70]})")
             pt = elt.args[1] if ok else None
@@ -349,20 +359,33 @@ def run(cx):
                 ok = o.how == "return" and isinstance(v, S) and len(v.parts) == 3 and v.parts[0] == "(" and v.parts[2] == ")" and isinstance(v.parts[1], tuple) and v.parts[1][0] == "join"
                 cx.ob("R15c", or_make, ok, "an OR group is parenthesised" if ok else f"OR group text is {v!r}: not '(' + fragments + ')', AND/OR precedence changes the row set", stmt="parentheses")
     # the params list: created empty once, only passed on; no sorting / mutation
-    pdefs = assignments(execute, par_name)
+    from sa.guards import alias_env as _alias_env
+    env_x = _alias_env(execute)
+
+    def root(nm):
+        seen = set()
+        while nm in env_x and isinstance(env_x[nm], ast.Name) and nm not in seen:
+            seen.add(nm)
+            nm = env_x[nm].id
+        return nm
+    par_root, sql_root = root(par_name), root(sql_name)
+    par_names = {nm for nm in {par_name, par_root} | {k for k in env_x if root(k) == par_root}}
+    pdefs = assignments(execute, par_root)
     ok = len(pdefs) == 1 and isinstance(pdefs[0][1], ast.List) and not pdefs[0][1].elts
     cx.ob("R15c", pdefs[0][0] if pdefs else execute, ok, "parameter list starts empty" if ok else "parameter list is not created empty exactly once")
     for n in walk_local(execute):
-        if isinstance(n, ast.Name) and n.id == par_name and isinstance(n.ctx, ast.Load):
+        if isinstance(n, ast.Name) and n.id in par_names and isinstance(n.ctx, ast.Load):
             p = parent(n)
-            ok = (isinstance(p, ast.Call) and n in p.args and call_name(p) in ("make_text_update_values", "execute", "debug", "info")) or isinstance(p, ast.keyword) and False
+            renaming = isinstance(p, ast.Assign) and isinstance(p.targets[0], ast.Name) or \
+                isinstance(p, ast.Tuple) and isinstance(parent(p), ast.Assign) and parent(p).value is p and all(isinstance(t, ast.Name) for t in ast.walk(parent(p).targets[0]) if isinstance(t, ast.Name))
+            ok = renaming or (isinstance(p, ast.Call) and n in p.args and call_name(p) in ("make_text_update_values", "execute", "debug", "info")) or isinstance(p, ast.keyword) and False
             cx.ob("R15c", n, ok, "parameter list is only handed to the fragment builders, the logger and execute" if ok else
                   f"parameter list is used in {norm(enclosing_stmt(n))[:60]} (re-ordered / mutated?)")
     # sql text var: after the WHERE join nothing may bind more values; order of clauses WHERE < GROUP BY < ORDER BY
     augs = [n for n in execute.body if isinstance(n, (ast.If, ast.AugAssign, ast.Assign))]
     order = []
     for n in walk_local(execute):
-        if isinstance(n, ast.AugAssign) and is_name(n.target, sql_name):
+        if isinstance(n, ast.AugAssign) and (is_name(n.target, sql_name) or is_name(n.target, sql_root)):
             txt = [x.value for x in ast.walk(n.value) if const(x, str)]
             for kw in ("WHERE", "GROUP BY", "ORDER BY"):
                 if any(kw in t for t in txt):
@@ -389,7 +412,7 @@ def run(cx):
     for m in repo.modules.values():
         for c in ast.walk(m.tree):
             if isinstance(c, ast.Call) and call_name(c) in ("execute", "executemany", "executescript") and isinstance(c.func, ast.Attribute):
-                ok = enclosing_func(c) is execute
+                ok = getattr(enclosing_func(c), "name", None) == execute.name and enclosing(enclosing_func(c), (ast.ClassDef,)) is meth
                 cx.ob("R15f", c, ok, "cursor.execute is called from SqlMethod._execute only" if ok else "a second place executes SQL")
     for nm in ("all", "list", "one_or_none"):
         f = repo.method(meth, nm)
